@@ -16,6 +16,20 @@ def arg_prov(*patterns):
             if k >= len(call["a"]):
                 return False
             pv = provenance(fn, loc[0], loc[1], call["a"][k])
+            if isinstance(pat, tuple) and pat[0] == "all":
+                # every value that can reach the argument must match (the alternatives are separated by ' | ' at nesting depth 0)
+                alts, depth, cur = [], 0, ""
+                for ch in pv:
+                    depth += ch == "("
+                    depth -= ch == ")"
+                    cur += ch
+                    if depth == 0 and cur.endswith(" | "):
+                        alts.append(cur[:-3])
+                        cur = ""
+                alts.append(cur)
+                if not all(re.search(pat[1], a) for a in alts):
+                    return False
+                continue
             if not re.search(pat, pv):
                 return False
         return True
